@@ -250,7 +250,9 @@ def t_gen(tier, seed):
         g = progen.Gen(rnd, partial_names=["p1"], allow=allow, names=["a", "b", "c"])
         p1 = progen.Gen(rnd, partial_names=[], allow=allow).body(2, False, 3)
         t = g.program(size=5, depth=3)
-        d = [["a", rnd.choice(pool)], ["b", rnd.choice(pool)], ["arr", rnd.choice([v for v in pool if v[0] in "ao" and (v[0] != "o" or len(v[1]) < 2)] + [["a", [["i", "1"], ["i", "2"]]]])]]
+        # arrays of at most 6 elements: a capture that prints itself inside nested loops grows like len^len
+        small = [v for v in pool if not (v[0] in "ao" and len(v[1]) > 6)]
+        d = [["a", rnd.choice(small)], ["b", rnd.choice(small)], ["arr", rnd.choice([v for v in small if v[0] in "ao" and (v[0] != "o" or len(v[1]) < 2)] + [["a", [["i", "1"], ["i", "2"]]]])]]
         cases.append({"tpl": t, "data": d, "why": "random program", "partials": [("p1", p1)]})
     for i, c in enumerate(cases):
         c["id"] = i
